@@ -63,18 +63,56 @@ class World:
 class GT:
     """ ghost tensor: scale * word;  `iso` records isometry knowledge ('L' left-, 'R' right-isometric, None) """
 
-    def __init__(self, world, scale, word, role='site', iso=None, conj=False, tr=False):
+    _uid = 0
+
+    def __init__(self, world, scale, word, role='site', iso=None, conj=False, tr=False, ndim=None):
         self.w = world
         self.scale = scale
         self.word = tuple(word)
-        self.role = role          # 'site' | 'block' | 'diag'
+        self.role = role          # 'site' | 'block' | 'diag' | 'two' (two merged sites)
         self.iso = iso
         self.is_conj = conj
         self.is_tr = tr
+        self._ndim = ndim
+        GT._uid += 1
+        self.uid = GT._uid        # identity of this tensor VALUE (environment provenance is a set of (site, uid))
 
     @property
     def ndim(self):
-        return self.w.nr_phys + 2 if self.role == 'site' else 2
+        if self._ndim is not None:
+            return self._ndim
+        if self.role == 'site':
+            return self.w.nr_phys + 2
+        if self.role == 'two':
+            return 2 * self.w.nr_phys + 2
+        return 2
+
+    # reshaping used by pre_/post_ site methods: same value, different leg grouping
+    def fuse_legs(self, axes=None, mode=None):
+        g = self._like()
+        g._ndim = len(axes)
+        g.uid = self.uid
+        return g
+
+    def unfuse_legs(self, axes=None):
+        g = self._like()
+        n = 1 if isinstance(axes, int) else len(axes)
+        if self.role in ('block', 'two') and self.ndim == 2:
+            g.role, g._ndim = 'site', None
+        else:
+            g._ndim = self.ndim + n
+        g.uid = self.uid
+        return g
+
+    def transpose(self, axes=None):
+        g = self._like()
+        g.uid = self.uid
+        return g
+
+    def conj(self):
+        g = self._like(conj=not self.is_conj)
+        g.uid = self.uid
+        return g
 
     @property
     def config(self):
@@ -102,6 +140,10 @@ class GT:
     def __neg__(self):
         return self._like(scale=-self.scale)
 
+    def __sub__(self, other):
+        return GT(self.w, 1.0, (self.w.atom('lin'),), self.role, ndim=self._ndim)
+    __add__ = __sub__
+
     # ---- factorisations -------------------------------------------------------------------------------
     def qr(self, axes=(0, 1), sQ=1, Qaxis=-1, Raxis=0):
         w = self.w
@@ -125,11 +167,19 @@ class GT:
         w.require('qr-axes-follow-the-MPS-leg-convention', False)
         return GT(w, 1.0, (q,), 'site'), GT(w, self.scale, (r,), 'block')
 
+    def svd(self, axes=(0, 1), sU=1, compute_uv=True, **kw):
+        # Schmidt values of a central block (compute_uv=False): a diagonal tensor of the same norm
+        self.w.require('svd-method-on-the-central-block-for-Schmidt-values', And(self.role == 'block', not compute_uv))
+        return GT(self.w, self.scale, (self.w.atom('sv'),), 'diag')
+
     # ---- products along the chain ----------------------------------------------------------------------
     def __matmul__(self, other):
         # last leg of self with first leg of other: chain order self . other
-        return GT(self.w, self.scale * other.scale, self.word + other.word,
-                  role='site' if 'site' in (self.role, other.role) else 'block')
+        if self.role == 'site' and other.role == 'site':
+            role = 'two'
+        else:
+            role = 'site' if 'site' in (self.role, other.role) else 'block'
+        return GT(self.w, self.scale * other.scale, self.word + other.word, role=role)
 
     def apply_mask(self, *args, axes=0):
         raise sym.Unsupported("apply_mask on a ghost tensor that is not a mask")
@@ -193,7 +243,7 @@ def stub_svd(world):
     def svd(interp, real_fn, args, kwargs):
         a = args[0]
         axes = kwargs.get('axes', args[1] if len(args) > 1 else (0, 1))
-        world.require('svd-of-the-central-block', And(a.role == 'block', tuple(axes) == (0, 1), kwargs.get('sU', 1) == 1))
+        world.require('svd-of-a-matrix-shaped-block', And(a.role in ('block', 'two'), a.ndim == 2, tuple(axes) == (0, 1), kwargs.get('sU', 1) == 1))
         u, s, v = world.atom('u'), world.atom('s'), world.atom('v')
         world.rules[(u, s, v)] = a.word
         # (the norm of S equals the norm of the block: U, V isometric -- LAPACK's contract, assumed)
